@@ -55,7 +55,7 @@ class C07(Prop):
                     out.append(Case("time", fl, [("pipe", [[head, str(d), ["hot", "0"]]])],
                                     [["sub"], ["run"], ["emit", "0", ["n", "1"]], ["run"], ["q", "timers"],
                                      ["adv", str(d)], ["run"]], {"kind": "at-forms"}))
-        return out
+        return tg.with_units(seed, out)
 
     def oracle(self, case, lines, model_lines=None):
         pipe = case.field("pipe")[0]
